@@ -49,3 +49,12 @@ func TestKnownCCFBIgnoresFMT(t *testing.T) {
 		fmt.Println("DEFECT-PRESENT CCFeedbackReport.Unmarshal accepted FMT 0")
 	}
 }
+
+func TestKnownXRUnalignedBlock(t *testing.T) {
+	// one Loss RLE block with a single chunk: 14 octets of block, no terminating null chunk added
+	x := ExtendedReport{SenderSSRC: 1, Reports: []ReportBlock{&LossRLEReportBlock{SSRC: 2, BeginSeq: 1, EndSeq: 2, Chunks: []Chunk{0x4001}}}}
+	out, err := x.Marshal()
+	if err == nil && len(out)%4 != 0 {
+		fmt.Println("DEFECT-PRESENT XR with an odd chunk count marshalled to", len(out), "octets")
+	}
+}
